@@ -282,8 +282,12 @@ pub fn write_float_nonscientific<const FORMAT: u128>(
     let decimal_point = options.decimal_point();
 
     // Round and truncate the number of significant digits.
+    // NOTE: leading zeros (`0.000…`) are not significant: the digit window
+    // starts at the first significant digit.
     let mut start = integer_cursor;
-    let end = fraction_cursor.min(start + MAX_DIGIT_LENGTH + 1);
+    let leading = ltrim_char_count(&buffer[start..fraction_cursor], b'0');
+    let leading = leading.min(fraction_cursor - start - 1);
+    let end = fraction_cursor.min(start + leading + MAX_DIGIT_LENGTH + 1);
     let (mut digit_count, carried) =
         truncate_and_round(buffer, start, end, format.radix(), options);
 
